@@ -71,6 +71,13 @@ def _all_returns_tail(body: List[ast.stmt]) -> bool:
             continue
         if isinstance(s, ast.With) and last and _all_returns_tail(s.body):
             continue                # `with …: return v` at the end: the value is computed inside, handed over after the block
+        if isinstance(s, ast.Try) and _has_return([s]) and not s.finalbody and _all_returns_tail(s.body) and _all_returns_tail(s.orelse) \
+                and all(_all_returns_tail(h.body) for h in s.handlers):
+            if last:
+                continue
+            # `try: … except E: …; return a` followed by more: the rest runs only when nothing was caught, i.e. it is the else arm
+            if not _has_return(s.body) and not _has_return(s.orelse) and all(_definitely_returns(h.body) for h in s.handlers) and _all_returns_tail(body[i + 1:]):
+                return True
         if _has_return([s]):
             return False            # return inside loop / try / match / a with that is not the last statement
     return True
@@ -98,6 +105,9 @@ def _definitely_returns(body: List[ast.stmt]) -> bool:
         return True
     if isinstance(s, ast.If):
         return bool(s.orelse) and _definitely_returns(s.body) and _definitely_returns(s.orelse)
+    if isinstance(s, ast.Try) and not s.finalbody and s.handlers:
+        # `try: return a  except E: return b`
+        return _definitely_returns(s.orelse if s.orelse else s.body) and all(_definitely_returns(h.body) for h in s.handlers)
     return False
 
 
@@ -132,6 +142,26 @@ def _tailify(body: List[ast.stmt], k) -> Tuple[List[ast.stmt], bool]:
             ast.copy_location(new, s)
             out.append(new)
             return out, off1 or off2 or not s.orelse
+        if isinstance(s, ast.Try) and _has_return([s]):
+            hs = []
+            off = False
+            for h in s.handlers:
+                hb, o_ = _tailify(h.body, k)
+                off = off or o_
+                nh = ast.ExceptHandler(type=h.type, name=h.name, body=hb or [ast.Pass()])
+                hs.append(ast.copy_location(nh, h))
+            if rest:
+                b = list(s.body)
+                o, o_ = _tailify(list(s.orelse) + rest, k)
+                off = off or o_
+            else:
+                b, o1 = _tailify(s.body, k)
+                o, o2 = _tailify(s.orelse, k)
+                off = off or (o2 if s.orelse else o1)
+            new = ast.Try(body=b or [ast.Pass()], handlers=hs, orelse=o, finalbody=[])
+            ast.copy_location(new, s)
+            out.append(new)
+            return out, off
         if isinstance(s, ast.With) and _has_return([s]) and not rest:
             b, off = _tailify(s.body, k)
             new = ast.With(items=s.items, body=b or [ast.Pass()])
@@ -170,6 +200,29 @@ class _Subst(ast.NodeTransformer):
         return node
 
 
+def _beta_arg(e) -> bool:
+    """an argument that may be copied into a lambda body: no calls, nothing with an effect"""
+    if isinstance(e, (ast.Name, ast.Constant)):
+        return True
+    if isinstance(e, ast.Attribute):
+        return _beta_arg(e.value)
+    if isinstance(e, ast.Subscript):
+        return _beta_arg(e.value) and _beta_arg(e.slice)
+    return False
+
+
+class _Beta(ast.NodeTransformer):
+    """(lambda a, b: body)(x, y)  ->  body[a:=x, b:=y]"""
+
+    def visit_Call(self, node):
+        self.generic_visit(node)
+        f = node.func
+        if isinstance(f, ast.Lambda) and not node.keywords and len(node.args) == len(f.args.args) and all(_beta_arg(x) for x in node.args):
+            names = {p.arg: a for p, a in zip(f.args.args, node.args)}
+            return ast.copy_location(_Subst(names, {}).visit(clone(f.body)), node)
+        return node
+
+
 def _simple_arg(e) -> bool:
     if isinstance(e, (ast.Name, ast.Constant)):
         return True
@@ -199,8 +252,12 @@ def _assigned_names(fnode) -> Set[str]:
     return out
 
 
+def _is_static(h) -> bool:
+    return len(h.decorator_list) == 1 and isinstance(h.decorator_list[0], ast.Name) and h.decorator_list[0].id == 'staticmethod'
+
+
 def eligible(h) -> bool:
-    if h.decorator_list or h.args.vararg or h.args.kwarg or h.args.posonlyargs or isinstance(h, ast.AsyncFunctionDef):
+    if (h.decorator_list and not _is_static(h)) or h.args.vararg or h.args.kwarg or h.args.posonlyargs or isinstance(h, ast.AsyncFunctionDef):
         return False
     for n in _own(h):
         if isinstance(n, (ast.Yield, ast.YieldFrom, ast.Await, ast.Global, ast.Nonlocal)):
@@ -253,6 +310,53 @@ def _bind(h, call: ast.Call, is_method: bool) -> Optional[List[Tuple[str, ast.AS
     return order
 
 
+class _Liveness:
+    """is the caller's own value of a name still read after `stmt`?  (a read reachable from stmt with no assignment in between; reads in nested
+    scopes and in the rest of stmt itself count as live; anything unexpected counts as live)"""
+
+    def __init__(self, caller, stmt):
+        self.caller, self.stmt, self.cfg = caller, stmt, None
+
+    def after(self, name: str) -> bool:
+        from .cfg import CFG, defined_names, is_weak_def, walk_header
+        caller, stmt = self.caller, self.stmt
+        if not isinstance(caller, (ast.FunctionDef, ast.AsyncFunctionDef)):
+            return True
+        for n in ast.walk(caller):
+            if n is not caller and isinstance(n, (ast.FunctionDef, ast.AsyncFunctionDef, ast.Lambda, ast.ClassDef)):
+                if any(isinstance(x, ast.Name) and x.id == name for x in ast.walk(n)):
+                    return True
+            if isinstance(n, (ast.Global, ast.Nonlocal)) and name in n.names:
+                return True
+        if any(isinstance(x, ast.Name) and x.id == name for x in walk_header(stmt)):
+            return True
+        try:
+            if self.cfg is None:
+                self.cfg = CFG.of_function(caller)
+            cfg = self.cfg
+            if not cfg.has(stmt):
+                return True
+            seen = set()
+            work = list(cfg.g.successors(cfg.nid(stmt)))
+            while work:
+                n = work.pop()
+                if n in seen:
+                    continue
+                seen.add(n)
+                s = cfg.stmt.get(n)
+                if s is not None:
+                    if isinstance(s, ast.AugAssign) and isinstance(s.target, ast.Name) and s.target.id == name:
+                        return True
+                    if any(isinstance(x, ast.Name) and x.id == name and isinstance(x.ctx, (ast.Load, ast.Del)) for x in walk_header(s)):
+                        return True
+                    if name in defined_names(s) and not is_weak_def(s, name):
+                        continue
+                work.extend(cfg.g.successors(n))
+            return False
+        except Exception:
+            return True
+
+
 def _inline_at(h, call: ast.Call, stmt: ast.stmt, caller, is_method: bool) -> Optional[List[ast.stmt]]:
     order = _bind(h, call, is_method)
     if order is None:
@@ -288,8 +392,10 @@ def _inline_at(h, call: ast.Call, stmt: ast.stmt, caller, is_method: bool) -> Op
     for _p, a in order:
         arg_names |= _names_in(a)
     renames = {}
+    live = _Liveness(caller, stmt)
     for v in sorted(helper_locals):
-        if (v in caller_names and v not in target_names) or v in arg_names:
+        # a name the caller also uses is only in the way when the caller still reads its own value after this statement
+        if (v in caller_names and v not in target_names and live.after(v)) or v in arg_names:
             renames[v] = f'{v}__{h.name.strip("_")}'
     subst: Dict[str, ast.AST] = {}
     pre: List[ast.stmt] = []
@@ -299,11 +405,25 @@ def _inline_at(h, call: ast.Call, stmt: ast.stmt, caller, is_method: bool) -> Op
             return None
         if selfname != 'self':
             subst[selfname] = ast.Name(id='self', ctx=ast.Load())
+    lambdas: Set[str] = set()
     for p, a in order:
         if p in comp_bound:
             return None
+        if isinstance(a, ast.Lambda):
+            # a function handed in as a lambda and only ever called in the helper: the calls are replaced by the lambda's body
+            la = a.args
+            plain = not (la.vararg or la.kwarg or la.kwonlyargs or la.posonlyargs or la.defaults)
+            free = _names_in(a.body) - {x.arg for x in la.args}
+            uses = [n for n in ast.walk(tmp) if isinstance(n, ast.Name) and n.id == p]
+            called = [n for n in ast.walk(tmp) if isinstance(n, ast.Call) and isinstance(n.func, ast.Name) and n.func.id == p
+                      and not n.keywords and len(n.args) == len(la.args) and all(_beta_arg(x) for x in n.args)]
+            if not plain or p in helper_assigned or free & (helper_assigned | set(params)) or len(uses) != len(called) or any(isinstance(n, (ast.Lambda,) + _COMPS) for n in ast.walk(a.body)):
+                return None
+            subst[p] = a
+            lambdas.add(p)
+            continue
         assigned_after = {renames.get(x, x) for x in helper_assigned}
-        if _simple_arg(a) and p not in helper_assigned and not (_names_in(a) & assigned_after) and not pre:
+        if _simple_arg(a) and p not in helper_assigned and not (_names_in(a) & assigned_after) and (not pre or isinstance(a, (ast.Name, ast.Constant))):
             subst[p] = a
         else:
             pname = p if (p not in caller_names or p in target_names) and p not in arg_names else f'{p}__{h.name.strip("_")}'
@@ -316,6 +436,8 @@ def _inline_at(h, call: ast.Call, stmt: ast.stmt, caller, is_method: bool) -> Op
     # a substituted parameter must not be shadowed by a rename of the same id
     tr = _Subst(subst, renames)
     body = [tr.visit(s) for s in body]
+    if lambdas:
+        body = [_Beta().visit(s) for s in body]
 
     if isinstance(stmt, ast.Return):
         def k(value, at):
@@ -339,6 +461,9 @@ def _inline_at(h, call: ast.Call, stmt: ast.stmt, caller, is_method: bool) -> Op
             v = value if value is not None else ast.copy_location(ast.Constant(value=None), at)
             if isinstance(v, ast.Name) and len(targets) == 1 and isinstance(targets[0], ast.Name) and targets[0].id == v.id:
                 return []                   # `x = x`
+            if isinstance(v, ast.Tuple) and len(targets) == 1 and isinstance(targets[0], ast.Tuple) and len(v.elts) == len(targets[0].elts) \
+                    and all(isinstance(a, ast.Name) and isinstance(b, ast.Name) and a.id == b.id for a, b in zip(v.elts, targets[0].elts)):
+                return []                   # `a, b = (a, b)`
             a = ast.Assign(targets=clone(targets), value=v)
             return [ast.copy_location(a, at)]
         new, off = _tailify(body, k)
@@ -463,11 +588,15 @@ def inline_module(tree: ast.Module, known: Set[str]) -> Dict[str, int]:
         def expand_comprehension(s):
             """`T = [helper(..) for v in it if c]` (one clause, plain target name) -> `T = []` + the loop that appends, so that the helper
             call becomes a statement-level call that can be inlined.  Only for new helpers; the loop variable must not occur elsewhere in f."""
-            if not (isinstance(s, ast.Assign) and len(s.targets) == 1 and isinstance(s.targets[0], ast.Name) and isinstance(s.value, ast.ListComp)
-                    and len(s.value.generators) == 1 and not s.value.generators[0].is_async and isinstance(s.value.elt, ast.Call)):
+            if not (isinstance(s, ast.Assign) and len(s.targets) == 1 and isinstance(s.targets[0], ast.Name) and isinstance(s.value, (ast.ListComp, ast.DictComp))
+                    and len(s.value.generators) == 1 and not s.value.generators[0].is_async):
                 return None
             comp = s.value
-            if lookup_in(comp.elt)[0] is None:
+            is_dict = isinstance(comp, ast.DictComp)
+            helper_call = comp.value if is_dict else comp.elt
+            if not isinstance(helper_call, ast.Call) or lookup_in(helper_call)[0] is None:
+                return None
+            if is_dict and not _beta_arg(comp.key):
                 return None
             g = comp.generators[0]
             tnames = {n.id for n in ast.walk(g.target) if isinstance(n, ast.Name)}
@@ -495,9 +624,13 @@ def inline_module(tree: ast.Module, known: Set[str]) -> Dict[str, int]:
                 if isinstance(n, ast.arg) and n.arg in tnames:
                     return None
             x = s.targets[0].id
-            init = ast.copy_location(ast.Assign(targets=[ast.Name(id=x, ctx=ast.Store())], value=ast.copy_location(ast.List(elts=[], ctx=ast.Load()), s)), s)
-            app = ast.Expr(value=ast.Call(func=ast.Attribute(value=ast.Name(id=x, ctx=ast.Load()), attr='append', ctx=ast.Load()), args=[comp.elt], keywords=[]))
-            ast.copy_location(app, comp.elt)
+            empty = ast.Dict(keys=[], values=[]) if is_dict else ast.List(elts=[], ctx=ast.Load())
+            init = ast.copy_location(ast.Assign(targets=[ast.Name(id=x, ctx=ast.Store())], value=ast.copy_location(empty, s)), s)
+            if is_dict:
+                app = ast.Assign(targets=[ast.Subscript(value=ast.Name(id=x, ctx=ast.Load()), slice=comp.key, ctx=ast.Store())], value=helper_call)
+            else:
+                app = ast.Expr(value=ast.Call(func=ast.Attribute(value=ast.Name(id=x, ctx=ast.Load()), attr='append', ctx=ast.Load()), args=[comp.elt], keywords=[]))
+            ast.copy_location(app, helper_call)
             ast.fix_missing_locations(app)
             inner: ast.stmt = app
             for c in reversed(g.ifs):
@@ -513,7 +646,7 @@ def inline_module(tree: ast.Module, known: Set[str]) -> Dict[str, int]:
                 return (nested.get(call.func.id) or (top.get(call.func.id) if call.func.id != f.name else None)), False
             if isinstance(call.func, ast.Attribute) and isinstance(call.func.value, ast.Name) and call.func.value.id == 'self' and cls:
                 hh = methods.get(cls, {}).get(call.func.attr)
-                return (hh if hh is not f else None), True
+                return (hh if hh is not f else None), not (hh is not None and _is_static(hh))
             return None, False
 
         def block(body: List[ast.stmt]) -> List[ast.stmt]:
@@ -543,7 +676,7 @@ def inline_module(tree: ast.Module, known: Set[str]) -> Dict[str, int]:
                         return (nested.get(call.func.id) or (top.get(call.func.id) if call.func.id != f.name else None)), False
                     if isinstance(call.func, ast.Attribute) and isinstance(call.func.value, ast.Name) and call.func.value.id == 'self' and cls:
                         hh = methods.get(cls, {}).get(call.func.attr)
-                        return (hh if hh is not f else None), True
+                        return (hh if hh is not f else None), not (hh is not None and _is_static(hh))
                     return None, False
                 if c is None or lookup(c)[0] is None:
                     hz = _hoistable(s, lambda call: lookup(call)[0] is not None)
@@ -613,7 +746,7 @@ def inline_module(tree: ast.Module, known: Set[str]) -> Dict[str, int]:
                         h = nested.get(c.func.id) or (top.get(c.func.id) if c.func.id != f.name else None)
                     elif isinstance(c.func, ast.Attribute) and isinstance(c.func.value, ast.Name) and c.func.value.id == 'self' and cls:
                         h = methods.get(cls, {}).get(c.func.attr)
-                        is_m = True
+                        is_m = not (h is not None and _is_static(h))
                         if h is f:
                             h = None
                     if h is not None:
